@@ -1,4 +1,6 @@
 SPECIFICATION Spec
 CONSTANTS Seed = 0
  Stride = 40
+ KwStride = 1
+ CastStride = 1
 CHECK_DEADLOCK FALSE
